@@ -217,7 +217,16 @@ pub fn run_case(case: &mut Case) {
                     }
                 }
             }
-            Spec::Wrap { inner, .. } => rich_help(inner, rng),
+            Spec::Wrap { w, inner, .. } => {
+                // a group title may be a text of several lines and paragraphs as well: the
+                // members of the group and everything behind it are still listed
+                if let W::GroupHelp(t) | W::WithGroupHelp(t) = w {
+                    if rng.chance(1, 6) {
+                        *t = format!("{}\nsecond line of the title\n\nsecond paragraph of the title", t);
+                    }
+                }
+                rich_help(inner, rng)
+            }
             Spec::Seq(xs) | Spec::Alt(xs) | Spec::Adj(xs) => {
                 xs.iter_mut().for_each(|x| rich_help(x, rng))
             }
